@@ -66,6 +66,11 @@ CHECKS.update({
          "Every short text over 1-4-byte characters, U+FFFD and BOM with each internal byte boundary on read-block boundaries 4096 and 8192, every Read(n) chunking n in 1..9 and alternating pairs, every byte string <= 2 over all 256 values (<= 3 over structural bytes) inserted at start/middle/boundary/end, every single-byte substitution of a sample, GBK files, and end-to-end runs of corrupted programs: valid => exactly []rune minus one BOM, invalid => error and nothing executed.",
          "Trusted: Go utf8.Valid and []rune conversion.",
          "DESIGN.md §4 C17"),
+ "C15": ("exploration",
+         "bounded exhaustive enumeration (E1) of all module dependency digraphs on <= 4 files, oracle computed from the graph",
+         "Every directed graph with self-loops on up to 4 module files (module 0 the main file) x import order x probe variants is written as real files and executed through LoadFile; a reachable cycle must give circular-dependency error 63, otherwise the exact load order (each body once, dependencies first), the call traces through imported methods and the read-only / not-exported / selective-import probes must match what the graph implies.",
+         "Trusted: the graph oracle (DFS reachability/cycle, deterministic load order). More than 4 files and repeated imports in one file are not covered.",
+         "DESIGN.md §4 C15"),
 })
 NOT_YET = {}
 props = [json.loads(l) for l in open(f"{V}/properties.jsonl")]
